@@ -190,3 +190,8 @@ package dns
 //@ extern strings.Cut
 //@   ensures len(before) <= len(s) && len(after) <= len(s)
 //@   pure
+
+// a byte reader only touches its own state: for the module's generateReader this frame is verified on
+// (*generateReader).ReadByte, for readers supplied by the caller it is trusted
+//@ iface io.ByteReader.ReadByte
+//@   modifies A.uint8.v H.bytes.Buffer.buf.cap H.bytes.Buffer.buf.len H.bytes.Buffer.buf.off H.bytes.Buffer.buf.ref H.bytes.Buffer.lastRead.v H.bytes.Buffer.off.v H.generateReader.cur.v H.generateReader.eof.v H.generateReader.escape.v H.generateReader.si.v
